@@ -49,12 +49,12 @@ Lemma sat_add_range a b : 0 <= a -> 0 <= b -> 0 <= sat_add a b <= u64_max.
 Proof. unfold sat_add. pose proof u64_max_pos. lia. Qed.
 
 Lemma sat_mul_range a b : 0 <= a -> 0 <= b -> 0 <= sat_mul a b <= u64_max.
-Proof. unfold sat_mul. pose proof u64_max_pos. nia. Qed.
+Proof. intros. unfold sat_mul. pose proof u64_max_pos. assert (0 <= a * b) by nia. lia. Qed.
 
 (* saturating operations compute min (exact, MAX), compositionally *)
 Lemma sat_add_min a b : 0 <= a -> 0 <= b ->
   sat_add (Z.min a u64_max) (Z.min b u64_max) = Z.min (a + b) u64_max.
-Proof. unfold sat_add. lia. Qed.
+Proof. pose proof u64_max_pos. unfold sat_add. lia. Qed.
 
 Lemma sat_mul_min a b : 0 <= a -> 0 <= b ->
   sat_mul (Z.min a u64_max) (Z.min b u64_max) = Z.min (a * b) u64_max.
@@ -62,7 +62,7 @@ Proof.
   intros Ha Hb. unfold sat_mul. pose proof u64_max_pos as HM.
   destruct (Z.le_gt_cases a u64_max) as [Ha'|Ha'];
   destruct (Z.le_gt_cases b u64_max) as [Hb'|Hb'].
-  - rewrite !Z.min_l by lia. reflexivity.
+  - rewrite (Z.min_l a) by lia. rewrite (Z.min_l b) by lia. reflexivity.
   - rewrite (Z.min_l a) by lia. rewrite (Z.min_r b) by lia.
     destruct (Z.eq_dec a 0) as [->|Hz]; [rewrite !Z.mul_0_l; reflexivity|].
     rewrite (Z.min_r (a * b)) by nia. rewrite Z.min_r by nia. reflexivity.
@@ -284,8 +284,10 @@ Qed.
 
 Lemma earlier_metrics_iff m m' : In m' (earlier_metrics m) <-> metric_index m' < metric_index m.
 Proof.
-  destruct m; destruct m'; cbn; split; intros H; try lia; try tauto;
-    repeat (destruct H as [H|H]; [discriminate|]); try (exfalso; exact H).
+  destruct m; destruct m'; unfold earlier_metrics; split; intros H;
+    vm_compute in H; vm_compute; try reflexivity; try discriminate;
+    try (repeat (first [left; reflexivity | right]); fail);
+    repeat (destruct H as [H|H]; try discriminate); try contradiction.
 Qed.
 
 Lemma nodup_split_unique (A : Type) (l : list A) : NoDup l ->
@@ -295,9 +297,12 @@ Proof.
   - destruct pre; discriminate.
   - destruct pre as [|p pre]; destruct pre' as [|p' pre']; cbn in *.
     + reflexivity.
-    + inversion E; inversion E'; subst. exfalso. apply Hnin. rewrite H3. apply in_or_app. right. left. reflexivity.
-    + inversion E; inversion E'; subst. exfalso. apply Hnin. rewrite H1. apply in_or_app. right. left. reflexivity.
-    + inversion E; inversion E'; subst. f_equal. eapply IH; [reflexivity|eassumption].
+    + injection E as Ea El. injection E' as Ea' El'. exfalso. apply Hnin.
+      rewrite El', Ea. apply in_or_app. right. left. reflexivity.
+    + injection E as Ea El. injection E' as Ea' El'. exfalso. apply Hnin.
+      rewrite El, Ea'. apply in_or_app. right. left. reflexivity.
+    + injection E as Ea El. injection E' as Ea' El'. f_equal; [congruence|].
+      eapply IH; eassumption.
 Qed.
 
 (* the staged order: the reported limit is the first stage, in source order, that trips *)
@@ -341,7 +346,7 @@ Proof.
   - intros H m o Ho. specialize (H m). unfold trips in H. rewrite Ho in H.
     apply exceeds_false_iff. exact H.
   - intros H m. unfold trips. destruct (observed c m) as [o|] eqn:Ho; [|reflexivity].
-    apply exceeds_false_iff. apply H. reflexivity.
+    apply exceeds_false_iff. apply (H m). exact Ho.
 Qed.
 
 (* when several stages trip, the reported one has the smallest index *)
@@ -364,7 +369,7 @@ Proof.
 Qed.
 
 (* the per-function stages look at the largest entry *)
-Lemma max_fold_spec f r : forall a,
+Lemma max_fold_spec (f : fn_counts -> Z) (r : list fn_counts) : forall a,
   let v := fold_left (fun m y => Z.max m (f y)) r a in
   a <= v /\ (forall y, In y r -> f y <= v) /\ (v = a \/ exists y, In y r /\ f y = v).
 Proof.
@@ -375,9 +380,9 @@ Proof.
     + lia.
     + intros y [<-|Hy]; [lia|apply H2; exact Hy].
     + destruct H3 as [H3|(y & Hy & Ey)].
-      * destruct (Z.max_spec a (f x)) as [[_ E]|[_ E]]; rewrite E in H3.
-        -- right. exists x. split; [left; reflexivity|symmetry; exact H3].
-        -- left. exact H3.
+      * destruct (Z.max_spec a (f x)) as [[_ E]|[_ E]].
+        -- right. exists x. split; [left; reflexivity|congruence].
+        -- left. congruence.
       * right. exists y. split; [right; exact Hy|exact Ey].
 Qed.
 
@@ -493,7 +498,7 @@ Lemma summary_trips_threshold c k :
    summary_fn_threshold (max_summary_events k) (n_locals c) <= n_functions c).
 Proof.
   intros Hk Hc Ht Hcap.
-  destruct (derived_verdicts_exact c k Hk Hc Ht) as [-> _]; [exact Hcap|].
+  destruct (derived_verdicts_exact c k Hk Hc Ht) as [HS _]. rewrite (HS Hcap).
   rewrite exceeds_true_iff. destruct Hc as (_ & HL & _).
   pose proof (Hk CSummary) as HkS. cbn [cap_value cap_max] in HkS.
   apply summary_threshold_exact; try lia. unfold n_functions. lia.
@@ -552,19 +557,27 @@ Proof.
   apply fn_events_mono; assumption.
 Qed.
 
-Lemma max_fold_mono f r r' : Forall2 (fun x y => f x <= f y) r r' -> forall a a', a <= a' ->
+Lemma max_fold_mono (f : fn_counts -> Z) (r r' : list fn_counts) : Forall2 (fun x y => f x <= f y) r r' -> forall a a', a <= a' ->
   fold_left (fun m y => Z.max m (f y)) r a <= fold_left (fun m y => Z.max m (f y)) r' a'.
 Proof.
   induction 1 as [|x y r r' Hxy _ IH]; intros a a' Ha; cbn [fold_left]; [exact Ha|].
   apply IH. lia.
 Qed.
 
-Lemma max_of_mono f pf pf' o : Forall2 (fun x y => f x <= f y) pf pf' ->
+Lemma max_of_mono (f : fn_counts -> Z) pf pf' o : Forall2 (fun x y => f x <= f y) pf pf' ->
   max_of f pf = Some o -> exists o', max_of f pf' = Some o' /\ o <= o'.
 Proof.
   intros H. destruct H as [|x y r r' Hxy Hr]; cbn [max_of]; [discriminate|].
   intros E. inversion E; subst o. eexists. split; [reflexivity|]. apply max_fold_mono; assumption.
 Qed.
+
+Lemma forall2_same_length (A B : Type) (R : A -> B -> Prop) l l' :
+  Forall2 R l l' -> List.length l = List.length l'.
+Proof. induction 1; cbn; congruence. Qed.
+
+Lemma forall2_weaken (A B : Type) (R R' : A -> B -> Prop) l l' :
+  (forall x y, R x y -> R' x y) -> Forall2 R l l' -> Forall2 R' l l'.
+Proof. intros H. induction 1; constructor; auto. Qed.
 
 Lemma observed_mono c c' m o :
   counts_wf c -> n_locals c' * 2 + 2 <= u64_max -> counts_le c c' ->
@@ -573,12 +586,12 @@ Proof.
   intros Hc Hb' (Hpf & HL & HS & HN & HC & HO & HB) Ho.
   destruct Hc as (Hwf & HL0 & _).
   assert (Hlen : n_functions c = n_functions c').
-  { unfold n_functions. rewrite (Forall2_length Hpf). reflexivity. }
+  { unfold n_functions. rewrite (forall2_same_length _ _ _ _ _ Hpf). reflexivity. }
   assert (Hnn : Forall fn_nonneg (per_fn c)) by (eapply Forall_impl; [|exact Hwf]; apply fn_wf_nonneg).
   destruct m; cbn [observed] in *;
     try (inversion Ho; subst o; eexists; split; [reflexivity|]; lia).
-  - eapply max_of_mono; [|exact Ho]. eapply Forall2_impl; [|exact Hpf]. intros x y H. apply H.
-  - eapply max_of_mono; [|exact Ho]. eapply Forall2_impl; [|exact Hpf]. intros x y H. apply H.
+  - eapply max_of_mono; [|exact Ho]. eapply forall2_weaken; [|exact Hpf]. intros x y H. apply H.
+  - eapply max_of_mono; [|exact Ho]. eapply forall2_weaken; [|exact Hpf]. intros x y H. apply H.
   - inversion Ho; subst o. eexists. split; [reflexivity|].
     rewrite <- Hlen. unfold summary_event_bound.
     assert (Hf : 0 <= n_functions c) by (unfold n_functions; lia).
@@ -603,7 +616,7 @@ Qed.
 (* ------------------------------------------------------------------------------------ *)
 (** * Stages that real programs cannot reach before an earlier one *)
 
-Lemma sum_of_fold_ge f pf : Forall (fun x => 0 <= f x) pf -> forall a,
+Lemma sum_of_fold_ge (f : fn_counts -> Z) pf : Forall (fun x => 0 <= f x) pf -> forall a,
   a <= fold_left (fun a x => a + f x) pf a /\
   forall x, In x pf -> a + f x <= fold_left (fun a x => a + f x) pf a.
 Proof.
@@ -613,7 +626,7 @@ Proof.
     intros x [<-|Hx]; [lia|]. specialize (H2 x Hx). lia.
 Qed.
 
-Lemma sum_of_ge_each f pf x : Forall (fun x => 0 <= f x) pf -> In x pf -> f x <= sum_of f pf.
+Lemma sum_of_ge_each (f : fn_counts -> Z) pf x : Forall (fun x => 0 <= f x) pf -> In x pf -> f x <= sum_of f pf.
 Proof. intros H Hx. destruct (sum_of_fold_ge f pf H 0) as (_ & H2). specialize (H2 x Hx). unfold sum_of. lia. Qed.
 
 (* total_ops = number of statements, so with max_total_ops >= max_statements the "cfg ops"
@@ -771,6 +784,10 @@ Proof.
   exists pl, id. repeat split. exact Hy.
 Qed.
 
+Lemma fold_left_ext_all (A B : Type) (f g : A -> B -> A) (l : list B) :
+  (forall a x, f a x = g a x) -> forall a, fold_left f l a = fold_left g l a.
+Proof. intros H. induction l as [|x l IH]; intros a; cbn; [reflexivity|]. rewrite H. apply IH. Qed.
+
 Section RuntimeSkeletonFacts.
   Context {state stmt_t : Type}.
   Context (stmt_id : stmt_t -> option Z) (fn_id : stmt_t -> option Z).
@@ -782,7 +799,37 @@ Section RuntimeSkeletonFacts.
     exec_block stmt_id fn_id step register None b s
     = exec_block_unoptimised fn_id step register b s.
   Proof.
-    unfold exec_block, exec_block_unoptimised, hoist. f_equal.
-    - apply fold_left_ext_in_all.
-  Abort.
+    unfold exec_block, exec_block_unoptimised, hoist.
+    rewrite (fold_left_ext_all _ _
+               (fun s st => match fn_id st with
+                            | Some id => if function_is_pruned None id then s else register st s
+                            | None => s end)
+               (fun s st => match fn_id st with Some _ => register st s | None => s end)).
+    - apply fold_left_ext_all. intros a x. destruct (stmt_id x); reflexivity.
+    - intros a x. destruct (fn_id x); reflexivity.
+  Qed.
+
+  (* over a limit the program runs exactly as the unoptimised interpreter runs it *)
+  Lemma over_limit_runs_unoptimised k earlier c a l b s :
+    first_exceeded_limit c k = Some l ->
+    exec_block stmt_id fn_id step register (snd (emit_analysis_warnings_with k earlier c a)) b s
+    = exec_block_unoptimised fn_id step register b s.
+  Proof.
+    intros H. unfold emit_analysis_warnings_with. rewrite H. cbn [snd]. apply exec_block_no_plan.
+  Qed.
+
+  (* a plan that marks nothing removable changes nothing either *)
+  Lemma exec_block_empty_plan b s :
+    exec_block stmt_id fn_id step register (Some (mkPlan [] [])) b s
+    = exec_block_unoptimised fn_id step register b s.
+  Proof.
+    unfold exec_block, exec_block_unoptimised, hoist.
+    rewrite (fold_left_ext_all _ _
+               (fun s st => match fn_id st with
+                            | Some id => if function_is_pruned (Some (mkPlan [] [])) id then s else register st s
+                            | None => s end)
+               (fun s st => match fn_id st with Some _ => register st s | None => s end)).
+    - apply fold_left_ext_all. intros a x. destruct (stmt_id x); reflexivity.
+    - intros a x. destruct (fn_id x); reflexivity.
+  Qed.
 End RuntimeSkeletonFacts.
